@@ -69,6 +69,13 @@ def evaluate(case):
             return f"radial faces of shell {k} do not sum to 4 pi R^2"
     if not np.isclose(vol.sum(), 4 / 3 * np.pi * R[-1] ** 3, rtol=1e-9):
         return "total volume"
+    # history: a caller's in-place change of a returned matrix / array must not show in later requests on the same object
+    from .common import caller_mutation_visible
+    with quiet():
+        bad = caller_mutation_visible({"volumes": pg.get_all_position_volumes, "adjacency": pg.get_adjacency_of_position_grid,
+                                       "borders": pg.get_borders_of_position_grid, "distances": pg.get_distances_of_position_grid})
+    if bad:
+        return f"getters {bad} hand out a buffer that later requests return again (changed by the caller in between)"
     return None
 
 
